@@ -10,6 +10,7 @@
 #include <gvt/fossil.h>
 
 #include <mm/msg_allocator.h>
+#include <core/verif.h>
 
 __thread unsigned fossil_epoch_current;
 /// The value of the last GVT, kept here for easier fossil collection operations
@@ -51,10 +52,12 @@ void fossil_lp_collect(struct lp_ctx *lp)
 	array_count_t k = past_i;
 	while(k--) {
 		struct lp_msg *msg = array_get_at(proc_p->p_msgs, k);
+		VERIF_TRACE(VK_FOSSIL_FREE, lp - lps, msg, k);
 		if(!is_msg_local_sent(msg))
 			msg_allocator_free(unmark_msg(msg));
 	}
 	array_truncate_first(proc_p->p_msgs, past_i);
+	VERIF_TRACE(VK_FOSSIL_DONE, lp - lps, past_i, verif_dbits(gvt));
 
 	lp->fossil_epoch = fossil_epoch_current;
 }
